@@ -102,7 +102,8 @@ impl Scenario for Sinks {
             }
             let src = plan.source0();
             let cut = (enc.len() as u64 * plan.param("cut_permille") as u64 / 1000) as usize;
-            for (what, data) in [("full", &enc[..]), ("truncated", &enc[..cut])] {
+            let near_end = enc.len().saturating_sub(1 + (plan.param("cut_permille") as usize % 3));
+            for (what, data) in [("full", &enc[..]), ("truncated", &enc[..cut]), ("truncated near the end", &enc[..near_end])] {
                 let a = (s.decode)(data, &src, Mode::Decode);
                 let b = (t.decode)(data, &src, Mode::Decode);
                 st.note(salt(&[s.name, &src.describe(), what, "bulk"]), &a.trace, data.len() > 1);
